@@ -309,6 +309,9 @@ type XMPStyle struct {
 	// EmptyArrSelfClose writes zero-item arrays as an empty-element tag (<rdf:Bag/>), as the
 	// Adobe toolkit does, instead of <rdf:Bag></rdf:Bag>.
 	EmptyArrSelfClose bool
+	// ManyArrays puts that many unknown one-item arrays in front of the other elements (array
+	// handling must not wear out with the number of arrays seen).
+	ManyArrays int
 }
 
 // RandXMPStyle draws a style. exotic enables TAB / CR LF separators.
@@ -359,6 +362,9 @@ func RandXMPStyle(r *core.Rng, exotic bool) XMPStyle {
 		}
 	}
 	st.EmptyArrSelfClose = r.Bool()
+	if r.Chance(1, 40) {
+		st.ManyArrays = r.Pick(61, 70, 100, 130, 260)
+	}
 	st.Unknown = r.Pick(0, 0, 1, 3, 8)
 	st.SplitDesc = r.Chance(1, 4)
 	st.SelfClose = r.Chance(1, 3)
@@ -456,6 +462,14 @@ func (rec *XMPRec) Serialise(r *core.Rng, st XMPStyle, forceForm int) []byte {
 				fmt.Fprintf(&b, "%s</rdf:%s%s>%s</%s:%s%s>", st.Indent, cont, st.EndTagWS, st.NL, p.NS, p.Name, st.EndTagWS)
 				elems = append(elems, b.String())
 			}
+		}
+		if st.ManyArrays > 0 {
+			var pre []string
+			for i := 0; i < st.ManyArrays; i++ {
+				cont := []string{"Bag", "Seq", "Alt"}[i%3]
+				pre = append(pre, fmt.Sprintf("<foo:Arr%d><rdf:%s><rdf:li>v%d</rdf:li></rdf:%s></foo:Arr%d>", i, cont, i, cont, i))
+			}
+			elems = append(pre, elems...)
 		}
 		// unknown properties interleaved
 		for i := 0; i < st.Unknown; i++ {
